@@ -21,6 +21,7 @@ type Result struct {
 	Model   string
 	Output  string
 	Answers map[string]string
+	MaxCase float64 // slowest single case (Aggregate)
 }
 
 type SolverCfg struct {
@@ -235,11 +236,15 @@ func Aggregate(rs []Result) []Result {
 		i, ok := idx[r.Obl.Name]
 		if !ok {
 			idx[r.Obl.Name] = len(out)
+			r.MaxCase = r.Seconds
 			out = append(out, r)
 			continue
 		}
 		a := &out[i]
 		a.Seconds += r.Seconds
+		if r.Seconds > a.MaxCase {
+			a.MaxCase = r.Seconds
+		}
 		switch {
 		case a.Status == "unsat":
 			if r.Status != "unsat" {
